@@ -22,7 +22,9 @@ import (
 	"github.com/TheManticoreProject/Manticore/network/smb/smb_v10/dialects"
 	"github.com/TheManticoreProject/Manticore/network/smb/smb_v10/message/commands/andx"
 	"github.com/TheManticoreProject/Manticore/network/smb/smb_v10/message/commands/codes"
+	"github.com/TheManticoreProject/Manticore/network/smb/smb_v10/message/data"
 	"github.com/TheManticoreProject/Manticore/network/smb/smb_v10/message/header"
+	"github.com/TheManticoreProject/Manticore/network/smb/smb_v10/message/parameters"
 	"github.com/TheManticoreProject/Manticore/network/smb/smb_v10/types"
 
 	"manticoreverif/smbgen"
@@ -356,10 +358,11 @@ func TestDialects(t *testing.T) {
 		ds := make([]string, n)
 		for i := range ds {
 			if rapid.IntRange(0, 3).Draw(t, "custom") == 0 {
-				l := rapid.IntRange(1, 12).Draw(t, "len")
+				// any NUL-free name, the empty one included ("02 00" is a well-formed entry)
+				l := rapid.IntRange(0, 12).Draw(t, "len")
 				b := make([]byte, l)
 				for j := range b {
-					b[j] = byte(rapid.IntRange(0x20, 0x7e).Draw(t, "ch"))
+					b[j] = byte(rapid.IntRange(1, 255).Draw(t, "ch"))
 				}
 				ds[i] = string(b)
 			} else {
@@ -1249,4 +1252,78 @@ func TestNestedIntegers(t *testing.T) {
 		}
 		return c
 	}, checkNested, func(c nestedCase) bool { return true })
+}
+
+// ---- the two counted blocks themselves -------------------------------------------------------------------------
+//
+// MS-CIFS 2.2.3.2/2.2.3.3: SMB_Parameters = UCHAR WordCount, then WordCount words whose bytes are whatever the
+// command put there; SMB_Data = USHORT ByteCount (little-endian), then ByteCount
+// bytes. An independent encoder written from that is one line each; it is compared with Data.Marshal and
+// Parameters.Marshal in both directions at lengths on both sides of every byte boundary of the count fields, and
+// with the count field of a whole message whose data block is that long.
+
+type blockCase struct {
+	Bytes int `json:"data_bytes"`
+	Words int `json:"parameter_words"`
+}
+
+func checkBlocks(c blockCase) []vf.Finding {
+	var fs []vf.Finding
+	content := make([]byte, c.Bytes)
+	for i := range content {
+		content[i] = byte(0x30 + i%0x4b)
+	}
+	ref := append([]byte{byte(c.Bytes), byte(c.Bytes >> 8)}, content...)
+	d := data.NewData()
+	d.Add(append([]byte{}, content...))
+	got, err := d.Marshal()
+	if err != nil || !bytes.Equal(got, ref) {
+		fs = append(fs, vf.F("Data.Marshal", "data-block-differs-from-ms-cifs", "%d bytes: err %v, block starts %x, MS-CIFS 2.2.3.3 gives %x", c.Bytes, err, got[:min(len(got), 4)], ref[:min(len(ref), 4)]))
+	}
+	d2 := data.NewData()
+	if n, err := d2.Unmarshal(append([]byte{}, ref...)); err != nil || n != len(ref) || !bytes.Equal(d2.GetBytes(), content) {
+		fs = append(fs, vf.F("Data.Unmarshal", "reference-data-block-misread", "%d bytes: consumed %d of %d, err %v, %d bytes decoded", c.Bytes, n, len(ref), err, len(d2.GetBytes())))
+	}
+	words := make([]byte, 2*c.Words)
+	for i := range words {
+		words[i] = byte(0x81 + i%0x7b)
+	}
+	pref := append([]byte{byte(c.Words)}, words...)
+	p := parameters.NewParameters()
+	p.AddWordsFromBytesStream(append([]byte{}, words...))
+	pgot, err := p.Marshal()
+	if err != nil || !bytes.Equal(pgot, pref) {
+		fs = append(fs, vf.F("Parameters.Marshal", "parameter-block-differs-from-ms-cifs", "%d words: err %v, block starts %x, MS-CIFS 2.2.3.2 gives %x", c.Words, err, pgot[:min(len(pgot), 5)], pref[:min(len(pref), 5)]))
+	}
+	p2 := parameters.NewParameters()
+	if n, err := p2.Unmarshal(append([]byte{}, pref...)); err != nil || n != len(pref) || !bytes.Equal(p2.GetBytes(), words) {
+		fs = append(fs, vf.F("Parameters.Unmarshal", "reference-parameter-block-misread", "%d words: consumed %d of %d, err %v", c.Words, n, len(pref), err))
+	}
+	// a whole command with a data block of that size: the two bytes after the parameter words are LE16(size)
+	e, _ := smbgen.ByName("EchoRequest")
+	cmd := smbgen.New(e)
+	rv := reflect.ValueOf(cmd).Elem()
+	rv.FieldByName("Data").Set(reflect.ValueOf(content).Convert(rv.FieldByName("Data").Type()))
+	if enc, err := marshalAny(cmd); err == nil && len(enc) >= 3 {
+		at := 1 + 2*int(enc[0])
+		if at+2 > len(enc) || enc[at] != byte(c.Bytes) || enc[at+1] != byte(c.Bytes>>8) || len(enc)-at-2 != c.Bytes {
+			fs = append(fs, vf.F("EchoRequest.Marshal", "byte-count-differs-from-ms-cifs", "%d data bytes: count bytes %x, MS-CIFS little-endian %02x%02x, %d bytes follow", c.Bytes, enc[at:min(at+2, len(enc))], byte(c.Bytes), byte(c.Bytes>>8), len(enc)-at-2))
+		}
+	}
+	return fs
+}
+
+func TestBlockCounts(t *testing.T) {
+	s := vf.Begin(t, P, "block-counts")
+	s.SetExhaustive()
+	vf.Enum(s, func(yield func(blockCase)) {
+		lens := []int{0, 1, 2, 127, 128, 254, 255, 256, 257, 258, 511, 512, 513, 1000, 4095, 4096, 32767, 32768, 65279, 65280, 65534, 65535}
+		words := []int{0, 1, 2, 17, 127, 128, 129, 254, 255}
+		for i, n := range lens {
+			yield(blockCase{n, words[i%len(words)]})
+		}
+		for i, w := range words {
+			yield(blockCase{lens[(i*5+3)%len(lens)], w})
+		}
+	}, checkBlocks, func(c blockCase) bool { return c.Bytes >= 256 || c.Words >= 128 })
 }
